@@ -79,6 +79,105 @@ def _ord(b):
 
 
 # ----------------------------------------------------------------------------- generator
+INT_DTYPES = ['int64', 'int32', 'int16', 'int8', 'uint8', 'uint16', 'uint32', 'uint64']
+FLOAT_DTYPES = ['float64', 'float32']
+N_LAY1, N_LAY2 = 6, 8
+
+
+def _dtype_range(dt):
+    bits = int(dt.lstrip('uint'))
+    return (0, 2 ** bits - 1) if dt.startswith('u') else (-2 ** (bits - 1), 2 ** (bits - 1) - 1)
+
+
+def _lay1(values, dtype, layout):
+    """a 1-D array holding `values` with the given memory layout (0 contiguous, 1 every 2nd element of a larger
+    array, 2 negative stride, 3 column of a C-ordered matrix, 4 every 3rd element from offset 2, 5 row of an F-ordered matrix)"""
+    import numpy as np
+    n = len(values)
+    v = np.array(values, dtype=dtype)
+    if layout == 0:
+        return v
+    if layout == 1:
+        big = np.zeros(2 * n + 1, dtype=dtype); big[1::2] = v
+        return big[1::2]
+    if layout == 2:
+        return np.ascontiguousarray(v[::-1])[::-1]
+    if layout == 3:
+        m = np.zeros((n, 3), dtype=dtype); m[:, 1] = v
+        return m[:, 1]
+    if layout == 4:
+        big = np.zeros(3 * n + 2, dtype=dtype); big[2::3] = v
+        return big[2::3]
+    m = np.asfortranarray(np.zeros((2, n), dtype=dtype)); m[1, :] = v
+    return m[1, :]
+
+
+def _lay2(rows, dtype, layout):
+    """a 2-D array equal to `rows` with the given memory layout (0 C, 1 Fortran, 2 transposed view, 3 every 2nd column
+    of a wider array, 4 every 2nd row of a taller array, 5 negative row stride, 6 negative column stride,
+    7 columns stacked then transposed)"""
+    import numpy as np
+    m = np.array(rows, dtype=dtype)
+    r, c = m.shape
+    if layout == 0:
+        return m
+    if layout == 1:
+        return np.asfortranarray(m)
+    if layout == 2:
+        return np.ascontiguousarray(m.T).T
+    if layout == 3:
+        big = np.zeros((r, 2 * c), dtype=dtype); big[:, ::2] = m
+        return big[:, ::2]
+    if layout == 4:
+        big = np.zeros((2 * r, c), dtype=dtype); big[::2] = m
+        return big[::2]
+    if layout == 5:
+        return np.ascontiguousarray(m[::-1])[::-1]
+    if layout == 6:
+        return np.ascontiguousarray(m[:, ::-1])[:, ::-1]
+    return np.stack([np.ascontiguousarray(m[:, j]) for j in range(c)], axis=0).T
+
+
+def _layout_cases(rng, quick):
+    """every memory layout x dtype for the formatters and the matrix writer/reader: text field (i, j) must be element (i, j)"""
+    cases = []
+    for di, dt in enumerate(INT_DTYPES):
+        lo, hi = _dtype_range(dt)
+        pool = sorted(set([lo, hi, 0, 1, hi - 1, lo + 1] + [s * (10 ** k + d) for k in range(0, 20) for d in (-1, 0, 1) for s in (1, -1)
+                                                            if lo <= s * (10 ** k + d) <= hi]))
+        for rep_ in range(1 if quick else 3):
+            n = rng.randint(3, 7)
+            vals = [rng.choice(pool) if rng.random() < 0.7 else rng.randint(lo, hi) for _ in range(n)]
+            runs = [[100 + 10 * lay + di, list(range(n))] for lay in range(N_LAY1)]
+            runs += [[300 + 10 * lay + di, list(range(n))] for lay in (0, 1, 3)]           # the same views as a written file column
+            runs += [[100 + 10 * rng.randrange(N_LAY1) + di, rng.sample(range(n), rng.randint(1, n))] for _ in range(2)]
+            cases.append(_mk(FMT_INT, vals, runs))
+            r, c = rng.randint(2, 4), rng.randint(2, 4)
+            rows = [[rng.choice(pool) if rng.random() < 0.7 else rng.randint(lo, hi) for _ in range(c)] for _ in range(r)]
+            runs = [[100 + 10 * lay + di, list(range(r))] for lay in range(N_LAY2)]           # matrix_to_csv (+ parse_matrix back)
+            runs += [[300 + 10 * lay + di, list(range(r))] for lay in range(N_LAY1)]          # int_lists_to_strings on a strided flat array
+            runs += [[100 + 10 * rng.randrange(N_LAY2) + di, rng.sample(range(r), rng.randint(1, r))] for _ in range(2)]
+            cases.append(_mk(FMT_LIST, rows, runs))
+            if dt == 'int64':
+                texts = [','.join(str(v) for v in row) for row in rows]
+                cases.append(_mk(PARSE_LIST, texts, [[6, list(range(r))], [1, list(range(r))], [6, list(range(r))[::-1]]]))
+    for di, dt in enumerate(FLOAT_DTYPES):
+        for rep_ in range(1 if quick else 3):
+            n = rng.randint(3, 7)
+            if dt == 'float64':
+                xs = [_rand_double(rng) for _ in range(n)]
+            else:       # float32: values both types represent exactly and print alike
+                xs = [rng.choice([0.5, -1.25, 3.0, 1e10, -0.0, 0.0, 1024.0, 2.0 ** -10, 7.75, -65536.0, 1e-3 * 0 + 0.375]) for _ in range(n)]
+            bits = [d2b(x) for x in xs]
+            runs = [[100 + 10 * lay + di, list(range(n))] for lay in range(N_LAY1)]
+            runs += [[0, list(range(n))], [100 + 10 * rng.randrange(N_LAY1) + di, rng.sample(range(n), rng.randint(1, n))]]
+            cases.append(_mk(FMT_FLOAT, bits, runs))
+    # float texts through parse_matrix
+    texts = ['1.5', '-2.25', '1e5', '.5', '12', '2.5e-3', '7.', '-0.0']
+    cases.append(_mk(PARSE_FLOAT, texts, [[2, list(range(len(texts)))], [0, list(range(len(texts)))], [2, [3, 1, 0]]]))
+    return cases
+
+
 def _all_runs(m, route=0):
     """every non-empty ordered sub-batch of m rows (m <= 4): 64 runs for m = 4"""
     out = []
@@ -267,6 +366,11 @@ def generate(tier, seed):
     for kind, bad_pool, good in ((MAL_INT, BAD_INTS, '-12'), (MAL_FLOAT, BAD_FLOATS, '-2.5e1')):
         for b in bad_pool:
             cases.append(_mk(kind, [good, b, '7'], _all_runs(3)))
+    # ---- memory layouts and dtypes
+    cases += _layout_cases(rng, quick)
+    # exponent texts that end in a zero digit, whole numbers, and the shortest forms around them (format floats)
+    xs = [1.5e+30, 2.5e-10, 1e+20, 3e-07, 1.25e+100, 1e+16, 2e+30, -4.5e-20, 5.0, 100.0, 1e+22, 1.0e+300, 7e-300, 120.0, 0.5, 1e-05]
+    cases.append(_mk(FMT_FLOAT, [d2b(x) for x in xs], [[0, list(range(len(xs)))], [1, list(range(len(xs)))]] + [[0, [i]] for i in range(len(xs))]))
     # ---- small mixed batches with every ordered sub-batch
     n_small = 24 if quick else 150
     for i in range(n_small):
@@ -399,6 +503,48 @@ def _run(kind, route, sel, d):
     from bionumpy.encoded_array import as_encoded_array
     from bionumpy.io import strops
     names = ['r%d' % i for i in range(len(sel))]
+    lay, dti = ((route % 100) // 10, route % 10) if route >= 100 else (0, 0)
+    if kind == FMT_INT and route >= 100:
+        arr = _lay1(sel, INT_DTYPES[dti], lay)
+        assert arr.tolist() == list(sel)
+        if route >= 300:
+            return _write_table(d, 'int', names, arr)[1]
+        return [x.to_string() for x in strops.ints_to_strings(arr)]
+    if kind == FMT_LIST and 100 <= route < 300:
+        from bionumpy.io.matrix_dump import matrix_to_csv, parse_matrix
+        m = _lay2(sel, INT_DTYPES[dti], lay)
+        assert m.tolist() == [list(r) for r in sel]
+        header = ['c%d' % j for j in range(m.shape[1])]
+        s = matrix_to_csv(m, header=header, sep=',').to_string()
+        lines = s.split('\n')
+        assert lines[-1] == '' and lines[0] == ','.join(header), lines
+        if lines[1:-1] == [','.join(str(v) for v in r) for r in sel]:
+            # the text is right: reading it back must give the matrix (str_to_int is an int64 parser: skip larger uint64)
+            back = parse_matrix(s, field_type=int, rowname_type=None, sep=',').data
+            if (INT_DTYPES[dti] != 'uint64' or m.max() < 2 ** 63) and \
+                    (back.shape != m.shape or back.astype(object).tolist() != m.astype(object).tolist()):
+                raise AssertionError('parse_matrix(matrix_to_csv(m)) != m')
+        return lines[1:-1]
+    if kind == FMT_LIST and route >= 300:
+        flat = _lay1([v for r in sel for v in r], INT_DTYPES[dti], lay)
+        ra = RaggedArray(flat, [len(r) for r in sel])
+        return [x.to_string() for x in strops.int_lists_to_strings(ra, sep=',')]
+    if kind == PARSE_LIST and route == 6:
+        from bionumpy.io.matrix_dump import parse_matrix
+        ncol = sel[0].count(',') + 1
+        text = ','.join('c%d' % j for j in range(ncol)) + '\n' + ''.join(t + '\n' for t in sel)
+        m = parse_matrix(text, field_type=int, rowname_type=None, sep=',').data
+        return [[int(v) for v in row] for row in m]
+    if kind == PARSE_FLOAT and route == 2:
+        from bionumpy.io.matrix_dump import parse_matrix
+        m = parse_matrix('a\n' + ''.join(t + '\n' for t in sel), field_type=float, rowname_type=None, sep='\t')
+        return [d2b(float(v)) for v in m.data.ravel()]
+    if kind == FMT_FLOAT and route >= 100:
+        xs = _lay1([b2d(b) for b in sel], FLOAT_DTYPES[dti], lay)
+        assert [float(x) for x in xs] == [b2d(b) for b in sel]
+        texts = [x.to_string() for x in strops.float_to_strings(xs)]
+        back = strops.str_to_float(as_encoded_array(texts))
+        return [[d2b(float(v)), t] for v, t in zip(back, texts)]
     if kind == FMT_INT:
         arr = np.array(sel, dtype=np.int64)
         if route == 0:
